@@ -21,6 +21,7 @@
   of its own.
 -/
 import SpyneModel.Events
+import SpyneModel.EventsReentrant
 namespace SpyneModel.Events
 
 /-- event names -/
@@ -54,6 +55,11 @@ inductive OutProto where
   | xml | soap11 | soap12 | json | yaml | msgpack | msgpackRpc | httpRpc
   deriving DecidableEq, Repr
 
+/-- how many return values the method declares (and whether the output message is bare) -/
+inductive Sig where
+  | void | single | multi | outBare
+  deriving DecidableEq, Repr
+
 /-- the shape of the method's result -/
 inductive Shape where
   | void        -- the method declares no return value
@@ -62,6 +68,7 @@ inductive Shape where
   | generator   -- declares an iterable, returns a generator
   | emptyGenerator  -- ... that yields nothing
   | ignored     -- returns spyne.Ignored(...)
+  | multi       -- declares two return values, returns a pair
   deriving DecidableEq, Repr
 
 /-- the pipeline stage at which the single injected failure happens -/
@@ -92,6 +99,7 @@ structure Cfg where
   outp : OutProto
   transport : Transport
   shape : Shape
+  sig : Sig
   deriving DecidableEq, Repr
 
 /-- the ways `Application.process_request` can go -/
@@ -109,6 +117,21 @@ inductive ProcCase where
 inductive Spelling where
   | evmgr | evmgrs | eventManager | eventManagers
   deriving DecidableEq, Repr
+
+/-- witness scenarios for the semantics of re-entrant registration (handler set, one-shot programs):
+    added during the firing: called in this firing; not yet reached and removed: skipped; removes itself: the
+    walk continues; removes itself and then its successor: the successor is still visited (stale pointer);
+    removes itself (last) then adds: not reached before the next firing; adds, then removes itself: reached -/
+def reentrantScenarios : List (List H × List (H × List ROp)) :=
+  [([1, 3], [(1, [.add 2])]),
+   ([1, 2, 3], [(1, [.del 2])]),
+   ([1, 2], [(1, [.del 1])]),
+   ([1, 2, 3], [(1, [.del 1, .del 2])]),
+   ([1], [(1, [.del 1, .add 2])]),
+   ([1], [(1, [.add 2, .del 1])]),
+   ([1, 2], [(1, [.del 1, .add 1]), (2, [.add 3])])]
+
+def progOf (p : List (H × List ROp)) : H → List ROp := fun h => ((p.find? (fun x => x.1 = h)).map (·.2)).getD []
 
 /-- who fires: decides which managers hear it -/
 inductive Src where
@@ -134,8 +157,8 @@ structure Facts14 where
   ctxInit : List Event
   /-- MethodContext.close -/
   ctxClose : List Event
-  /-- Application.process_request -/
-  proc : ProcCase → Meas
+  /-- Application.process_request, per signature of the method -/
+  proc : Sig → ProcCase → Meas
   /-- ServerBase.finalize_context: `fin fault none`, fault = ctx.out_error is set, none = the output
       protocol's create_out_string leaves ctx.out_string None -/
   fin : Bool → Bool → List Event
@@ -157,6 +180,11 @@ structure Facts14 where
   wsgiRefuse : ExcKind → Meas
   /-- does a manager passed to @rpc under this keyword end up in descriptor.event_managers -/
   spellingReaches : Spelling → Bool
+  /-- what the real EventManager calls in the witness scenarios of `reentrantScenarios` (listeners that
+      register / unregister listeners of the event that is being fired) -/
+  reentrantCalls : List (List H)
+  /-- does the manager of `@mrpc(_service_class=S)`'s service class end up there, too -/
+  mrpcServiceReaches : Bool
   /-- the output protocol's own events while it serialises a result of the given shape / a fault /
       before a failing serialize raises -/
   serOk : OutProto → Shape → List Event
@@ -232,8 +260,8 @@ def startSteps (F : Facts14) (t : Transport) : List Step :=
 
 /-- The whole call, protocol events left as slots. `noneOk` / `noneErr`: the output protocol leaves
     ctx.out_string None for this method's result / for a fault. -/
-def skeleton (F : Facts14) (noneOk noneErr : Bool) (t : Transport) (stage : Stage) (kind : ExcKind)
-    (co ro : Option ExcKind) : Skel :=
+def skeleton (F : Facts14) (P : ProcCase → Meas) (noneOk noneErr : Bool) (t : Transport) (stage : Stage)
+    (kind : ExcKind) (co ro : Option ExcKind) : Skel :=
   let start := sk (startSteps F t)
   match stage with
   | .refuse | .createInDoc | .decompose | .genContexts =>
@@ -250,8 +278,8 @@ def skeleton (F : Facts14) (noneOk noneErr : Bool) (t : Transport) (stage : Stag
   | .none | .dispatch | .user | .redirect | .redirectFail | .genBody | .serialize =>
     let deser : List SStep := [.slot .deserBefore, .slot .deserAfter]
     let pc := procCase ⟨stage, kind, false⟩ co ro
-    let proc := sk (symSteps true (F.proc pc).evs)
-    if (F.proc pc).escapes then
+    let proc := sk (symSteps true (P pc).evs)
+    if (P pc).escapes then
       -- process_request lets the exception through: nothing in the transports catches it
       ⟨start ++ deser ++ proc, true⟩
     else if pc.faulted then
@@ -297,7 +325,8 @@ def effShape (c : Cfg) (inj : Inj) : Shape :=
   if inj.stage = .redirect ∧ c.shape ≠ .void then .none else c.shape
 
 def skelOf (F : Facts14) (c : Cfg) (inj : Inj) (co ro : Option ExcKind) : Skel :=
-  skeleton F (F.leavesNone c.outp (effShape c inj)) (F.leavesNoneFault c.outp) c.transport inj.stage inj.kind co ro
+  skeleton F (F.proc c.sig) (F.leavesNone c.outp (effShape c inj)) (F.leavesNoneFault c.outp) c.transport inj.stage
+    inj.kind co ro
 
 /-- the whole call for an output protocol, a transport and a result shape -/
 def run (F : Facts14) (c : Cfg) (inj : Inj) (co ro : Option ExcKind) : Run :=
@@ -359,6 +388,10 @@ def expand (w : World) : Step → List Obs
 /-- the managers that reach the descriptor when they are passed to @rpc under keyword `sp` -/
 def descriptorManagers (F : Facts14) (sp : Spelling) (ms : List (Mgr Event)) : List (Mgr Event) :=
   if F.spellingReaches sp then ms else []
+
+/-- the service class's manager of a method: always for @rpc, for `@mrpc(_service_class=S)` as measured -/
+def descriptorService (F : Facts14) (mrpcWithService : Bool) (svc : Mgr Event) : Mgr Event :=
+  if mrpcWithService && !F.mrpcServiceReaches then Mgr.empty else svc
 
 /-- what firing method_call / method_return_object raises in this world -/
 def callOutcome (w : World) : Option ExcKind := (runHandlers w.raises .call (targets w (.ctx true) .call)).2
